@@ -31,7 +31,7 @@ ASSUMPTIONS = {
     "V2": "PyModel.Nx agrees with networkx 3.6 for the calls used, incl. iteration orders (same differential probe)",
     "V3": "igraph/bliss: permute_vertices(canonical_permutation(color)) is a canonical form, identical for colour-isomorphic inputs (bounded probe; bliss itself unverified)",
     "V4": "ANTLR runtime + generated tucanParser recognise tucan.g4 and hand the listener the parse tree in document order (bounded differential against an EBNF-derived reader)",
-    "V5": "float(f'{x:.6f}') is defined and fmt6 is idempotent through float() for finite doubles",
+    "V5": "float(f'{x:.6f}') is defined and fmt6 is idempotent through float() for finite doubles; float() ignores leading blanks (FloatIgnoresBlanks)",
     "V6": "random.seed(s); random.shuffle(l) is a deterministic function of s and permutes l",
     "lean": "Lean 4.33 kernel and Mathlib are sound; trusted base also contains vlib/extract.py and lean/PyModel",
 }
